@@ -253,6 +253,22 @@ class Compiler:
             else:
                 break
 
+    def _compile_finally_then_rethrow(self, try_ctx: TryContext, finalizer) -> None:
+        """The exceptional copy of a finally block: the pending exception is the
+        top operand while the block runs and is thrown again after it. A break,
+        continue or return inside the block abandons the exception, so the
+        operand is given up on that way out like a loop iterator is."""
+        saved = try_ctx.finalizer
+        try_ctx.finalizer = None  # This copy is the finally block itself
+        pending = LoopContext(
+            label="\x00pending exception", is_loop=False, stack_slots=1
+        )
+        self.loop_stack.append(pending)
+        self._compile_statement(finalizer)
+        self.loop_stack.pop()
+        self._emit(OpCode.THROW)  # Rethrow the exception
+        try_ctx.finalizer = saved
+
     def _add_constant(self, value: Any) -> int:
         """Add a constant and return its index."""
         if value in self.constants:
@@ -872,14 +888,24 @@ class Compiler:
                 name = node.handler.param.name
                 self._emit_store_variable(name)
                 self._emit(OpCode.POP)
+                if node.finalizer:
+                    # The catch block is protected as well: when it throws, the
+                    # finally block still runs and the exception goes on
+                    catch_guard = self._emit_jump(OpCode.TRY_START)
+                    try_ctx.in_block = True
                 self._compile_statement(node.handler.body)
+                if node.finalizer:
+                    self._emit(OpCode.TRY_END)
+                    try_ctx.in_block = False
+                    jump_after_catch = self._emit_jump(OpCode.JUMP)
+                    self._patch_jump(catch_guard)
+                    self._compile_finally_then_rethrow(try_ctx, node.finalizer)
+                    self._patch_jump(jump_after_catch)
                 # Fall through to finally
             elif node.finalizer:
                 # No catch, only finally - exception is on stack
                 # Run finally then rethrow
-                try_ctx.finalizer = None  # This copy is the finally block itself
-                self._compile_statement(node.finalizer)
-                self._emit(OpCode.THROW)  # Rethrow the exception
+                self._compile_finally_then_rethrow(try_ctx, node.finalizer)
 
             # Pop TryContext before compiling normal finally
             self.try_stack.pop()
